@@ -2504,7 +2504,8 @@ class sptensor:
                         shape=(
                             self.subs.shape[0],
                             len(self.shape) - self.subs.shape[1],
-                        )
+                        ),
+                        dtype=int,
                     ),
                     axis=1,
                 )
